@@ -129,6 +129,16 @@ func rerun(v *Violation) (string, error) {
 			return f.Observed, nil
 		}
 	}
+	// Data races: ThreadSanitizer reports one pair of accesses per memory location and suppresses pairs it has
+	// printed before, so WHICH pair of a racy execution gets reported depends on the history of the process.
+	// The execution is what is replayed; it reproduces when the same schedule is reported racy again.
+	if strings.HasPrefix(v.Class, "race:") {
+		for _, f := range found {
+			if f.Clause == v.Clause && strings.HasPrefix(f.Class, "race:") {
+				return v.Observed, nil
+			}
+		}
+	}
 	other := ""
 	for _, f := range found {
 		other += " [" + f.Clause + "/" + f.Class + ": " + f.Observed + "]"
@@ -163,6 +173,7 @@ type RunCtx struct {
 	capped     []string
 	outcomes   map[string]struct{}
 	failed     string // harness failure → exit 2
+	hung       bool   // a work item did not return: the remaining items of all jobs are skipped
 }
 
 func (rc *RunCtx) Quick() bool { return rc.Tier != "thorough" }
@@ -380,7 +391,24 @@ func parMap[I, O any](rc *RunCtx, job string, items []I, fresh bool, handle func
 					rc.Fail("worker %d died before item %d of %s: %v\n%s", w, i, job, err, p.errbuf.String())
 					break
 				}
-				line, err := p.rd.ReadBytes('\n')
+				line, err, timedOut := readLineTimeout(p, itemTimeout())
+				if timedOut {
+					// the implementation did not return: a liveness failure of the code under test (or of the
+					// harness). Kill the worker, record it with a replayable item, go on with a new worker.
+					p.cmd.Process.Kill()
+					p.cmd.Wait()
+					p = nil
+					rc.Report(Violation{Property: rc.ID, Clause: rc.ID + ".terminates", Class: "hang:" + job, Probe: "work item " + trunc(string(b), 400),
+						Observed: "no answer (worker killed)", Expected: "every operation of the router returns",
+						Replay: ItemReplay(job, json.RawMessage(b))})
+					rc.Capped(fmt.Sprintf("a work item of %s did not return within %s; the remaining work items were skipped", job, itemTimeout()))
+					rc.mu.Lock()
+					rc.hung = true
+					rc.mu.Unlock()
+					var zero O
+					results <- res{i, zero}
+					continue
+				}
 				if err != nil {
 					p.cmd.Wait()
 					rc.Fail("worker %d crashed on item %d of %s (%s): %v\n%s", w, i, job, trunc(string(b), 2000), err, p.errbuf.String())
@@ -426,6 +454,32 @@ func parMap[I, O any](rc *RunCtx, job string, items []I, fresh bool, handle func
 	}
 }
 
+// itemTimeout is the watchdog per work item (default 10 min; items normally take seconds).
+func itemTimeout() time.Duration {
+	if v, err := strconv.Atoi(os.Getenv("VERIF_ITEM_TIMEOUT_S")); err == nil && v > 0 {
+		return time.Duration(v) * time.Second
+	}
+	return 10 * time.Minute
+}
+
+func readLineTimeout(p *workerProc, d time.Duration) (line []byte, err error, timedOut bool) {
+	type rd struct {
+		b []byte
+		e error
+	}
+	ch := make(chan rd, 1)
+	go func() {
+		b, e := p.rd.ReadBytes('\n')
+		ch <- rd{b, e}
+	}()
+	select {
+	case r := <-ch:
+		return r.b, r.e, false
+	case <-time.After(d):
+		return nil, nil, true
+	}
+}
+
 func trunc(s string, n int) string {
 	if len(s) > n {
 		return s[:n] + "..."
@@ -436,7 +490,7 @@ func trunc(s string, n int) string {
 func (rc *RunCtx) failedNow() bool {
 	rc.mu.Lock()
 	defer rc.mu.Unlock()
-	return rc.failed != ""
+	return rc.failed != "" || rc.hung
 }
 
 type tailBuf struct {
@@ -561,7 +615,7 @@ func loadFindings(root string) ([]Finding, error) {
 
 func (rc *RunCtx) finish(c *Check) int {
 	wall := time.Since(rc.start).Seconds()
-	if rc.failed != "" {
+	if rc.failed != "" && !rc.hung {
 		fmt.Fprintf(os.Stderr, "HARNESS-FAILURE %s: %s\n", rc.ID, rc.failed)
 		return 2
 	}
@@ -610,6 +664,24 @@ func (rc *RunCtx) finish(c *Check) int {
 			for k := 0; k < 2; k++ {
 				cmd := exec.Command(os.Args[0], "confirm", p)
 				cmd.Env = append(os.Environ(), "GOMAXPROCS=1")
+				if strings.HasPrefix(v.Class, "hang:") {
+					// reproduces iff the replay does not return either
+					if err := cmd.Start(); err != nil {
+						fmt.Fprintln(os.Stderr, "HARNESS-FAILURE cannot start confirmation:", err)
+						return 2
+					}
+					done := make(chan error, 1)
+					go func() { done <- cmd.Wait() }()
+					select {
+					case <-done:
+						fmt.Fprintf(os.Stderr, "HARNESS-FAILURE %s: the work item that did not return during the run returns when replayed alone (overloaded machine?): %s\n", rc.ID, p)
+						return 2
+					case <-time.After(itemTimeout() / 4):
+						cmd.Process.Kill()
+						<-done
+					}
+					break // one confirmation is enough for a hang
+				}
 				out, err := cmd.CombinedOutput()
 				if err != nil {
 					fmt.Fprintf(os.Stderr, "HARNESS-FAILURE %s: violation %s did not reproduce identically in a fresh process (nondeterministic?):\n%s\nrecord: %s\n", rc.ID, v.Sig(), out, p)
